@@ -41,6 +41,22 @@ func init() {
 			if x.j.Bool("other", false) {
 				ops = append(ops, "Sa") // an unrelated key sharing tables with the merge key
 			}
+			if x.j.Bool("gc", false) {
+				ops = append(ops, "MB", "G") // MB: Add of a value that goes to the value log; G: value-log GC of the oldest sealed file
+			}
+			if only := x.j.Str("ops", ""); only != "" {
+				allow := map[string]bool{}
+				for _, o := range strings.Fields(only) {
+					allow[o] = true
+				}
+				var f []string
+				for _, o := range ops {
+					if allow[o] {
+						f = append(f, o)
+					}
+				}
+				ops = f
+			}
 			return ops
 		},
 		apply: func(x *seqExec, op string) bool {
@@ -48,6 +64,13 @@ func init() {
 			switch op {
 			case "MA":
 				v := fmt.Sprintf("<%d>", len(st.adds)+1)
+				if err := st.op.Add([]byte(v)); err != nil {
+					panic(err)
+				}
+				st.adds = append(st.adds, v)
+				return true
+			case "MB":
+				v := fmt.Sprintf("<%d%s>", len(st.adds)+1, strings.Repeat(".", 200))
 				if err := st.op.Add([]byte(v)); err != nil {
 					panic(err)
 				}
@@ -94,7 +117,7 @@ func init() {
 				return "", ""
 			}
 			if err != nil || string(got) != want {
-				return "merge-fold", fmt.Sprintf("MergeOperator.Get = %q (err %v), want %q\n  versions: %s\n  lsm: %s", got, err, want, dumpString(dumpAll(x.db)), shapeString(x.db))
+				return "merge-fold", fmt.Sprintf("MergeOperator.Get = %.80q (err %v), want %.80q\n  versions: %s\n  lsm: %s", got, err, want, dumpString(dumpAll(x.db)), shapeString(x.db))
 			}
 			return "", ""
 		},
